@@ -9,7 +9,7 @@ def gen_cfg(rng):
     kern = rng.choice(["uniform", "giso", "giso", "ganiso", "gcorr", "gcorrmarg"])
     if kern == "gcorrmarg":
         # correlated Gaussian, sd 2 ticks, 4x4 pixels of 10 ticks: the grid reaches >= 8 sd around points near its centre
-        g = dict(b0=-20, p0=0, ps=10, rx=4, ry=4, kern="gcorr", ka=2, kb=2, rho=rng.choice([0.3, -0.5, 0.8, -0.85, 0.6]), absdecide=0, marg=1, form="matrix", central=True)
+        g = dict(b0=-20, p0=0, ps=10, rx=4, ry=4, kern="gcorr", ka=2, kb=2, rho=rng.choice([0.3, -0.5, 0.8, -0.85, 0.6, 0.95, -0.95, -0.97, 0.93]), absdecide=0, marg=1, form="matrix", central=True)
         wk = rng.choice(["pers", "ramp", "const"])
         g.update(wkind=wk, wn=1, ramp=[0, 3, 2, 8] if rng.random() < 0.5 else [1, 4, 0, 6])
         return g
@@ -86,7 +86,8 @@ def build(rng, e, with_jobs=False):
     if with_jobs:
         calls.append(dict(ids=[0, 3, 1, 4], mode=rng.choice(["jobs1", "jobs2", "jobs4"]), skew=1))
         calls.append(dict(ids=[8, 8], mode=rng.choice(["jobs1", "jobs2"]), skew=0))      # workers must honour skew=False too
-    job = dict(cfg=cfgf, dgms=[fd(d, sk) for d, sk in zip(dgms, skews)], calls=calls)
+    job = dict(cfg=cfgf, dgms=[fd(d, sk) for d, sk in zip(dgms, skews)], calls=calls,
+               intdtype=bool(e.s == 1 and e.t == 0 and rng.random() < 0.5))      # integer arrays are a supported input form
     return dict(g=g, dgms=dgms, skews=skews, names=names, job=job, emb=e)
 
 
